@@ -316,7 +316,8 @@ def write_cpp_table(inc_path: str, tbl_path: str, types: list, cfg: dict) -> Non
 # valid-encoding generator and transport faults
 
 
-def rand_value(r: Rng, t: typing.Any, depth: int = 0) -> typing.Any:
+def rand_value(r: Rng, t: typing.Any, depth: int = 0, full: bool = False) -> typing.Any:
+    """full: the longest encoding the type has (every variable array at capacity, the widest alternative of every union)"""
     import pydsdl
 
     if isinstance(t, pydsdl.BooleanType):
@@ -330,19 +331,21 @@ def rand_value(r: Rng, t: typing.Any, depth: int = 0) -> typing.Any:
     if isinstance(t, pydsdl.FloatType):
         return r.choice([0.0, 1.0, -1.5, 0.333251953125, 1024.0, -65504.0, 6.103515625e-05])
     if isinstance(t, pydsdl.FixedLengthArrayType):
-        return [rand_value(r, t.element_type, depth + 1) for _ in range(t.capacity)]
+        return [rand_value(r, t.element_type, depth + 1, full) for _ in range(t.capacity)]
     if isinstance(t, pydsdl.VariableLengthArrayType):
         n = r.weighted([(0, 2), (t.capacity, 3), (r.below(t.capacity + 1), 4)])
+        if full:
+            n = t.capacity
         if t.capacity > 1000:
             n = min(n, r.choice([0, 3, 64, 300]))  # (the valid-encoding generator is pure Python: keep huge arrays short)
-        return [rand_value(r, t.element_type, depth + 1) for _ in range(n)]
+        return [rand_value(r, t.element_type, depth + 1, full) for _ in range(n)]
     if isinstance(t, pydsdl.DelimitedType):
-        return rand_value(r, t.inner_type, depth)
+        return rand_value(r, t.inner_type, depth, full)
     if isinstance(t, pydsdl.UnionType):
-        f = r.choice(list(t.fields))
-        return {f.name: rand_value(r, f.data_type, depth + 1)}
+        f = max(t.fields, key=lambda x: (x.data_type.bit_length_set.max, x.name)) if full else r.choice(list(t.fields))
+        return {f.name: rand_value(r, f.data_type, depth + 1, full)}
     if isinstance(t, pydsdl.StructureType):
-        return {f.name: rand_value(r, f.data_type, depth + 1) for f in t.fields_except_padding}
+        return {f.name: rand_value(r, f.data_type, depth + 1, full) for f in t.fields_except_padding}
     raise TypeError(type(t).__name__)
 
 
@@ -357,12 +360,15 @@ def make_buffer(r: Rng, t: typing.Any, counters: dict) -> typing.Tuple[bytes, st
         return r.bytes(r.below(extent + 9)), kind
     if kind == "ones":
         return b"\xff" * r.below(extent + 9), kind
+    full = kind == "valid" and r.chance(1, 3)
     try:
-        enc = pydsdl.serialize(t, rand_value(r, t))
+        enc = pydsdl.serialize(t, rand_value(r, t, 0, full))
+        if full:
+            kind = "valid_max"  # the longest encoding of the type: the object then needs its whole serialization buffer
     except Exception:  # pylint: disable=broad-except
         counters["valid_encoding_generator_failed"] = counters.get("valid_encoding_generator_failed", 0) + 1
         return r.bytes(r.below(extent + 9)), "random"
-    if kind == "valid":
+    if kind in ("valid", "valid_max"):
         return enc, kind
     if kind == "truncated":
         return enc[: r.below(len(enc) + 1)], kind
@@ -397,6 +403,7 @@ def make_ops(r: Rng, types: list, n: int, is_c: bool, counters: dict, full_cap_o
     ops = []  # type: typing.List[list]
     nt = len(types)
     i = 0
+    last_kind = [""]
     while len(ops) < n:
         ro = r.sub(i)
         i += 1
@@ -408,12 +415,14 @@ def make_ops(r: Rng, types: list, n: int, is_c: bool, counters: dict, full_cap_o
         def des() -> list:
             buf, fk = make_buffer(ro.sub("buf", len(ops)), t, counters)
             counters["buf_" + fk] = counters.get("buf_" + fk, 0) + 1
+            last_kind[0] = fk
             # (the C++ support library built with assertions asserts a non-null data pointer even for an empty span:
             # a NULL buffer is then API misuse by its own documentation, so it is not given to that build)
             return [2, ti, sl, ro.below(2) if allow_null else 0, buf.hex()]
 
         def ser() -> list:
-            cap = ro.weighted([(0xFFFFFFFF, 4), (0xFFFFFFFE, 1), (0xFFFFFFFD, 2), (0, 1), (1, 1), (ro.below(max(t.extent // 8, 1) + 2), 4)])
+            # (0xFFFFFFFF = exactly the advertised buffer size, ..FE one more, ..FD one less, ..FC-..F0 two to fourteen less)
+            cap = ro.weighted([(0xFFFFFFFF, 4), (0xFFFFFFFE, 1), (0xFFFFFFFD, 2), (0xFFFFFFFE - ro.between(2, 14), 3), (0, 1), (1, 1), (ro.below(max(t.extent // 8, 1) + 2), 4)])
             if full_cap_only:
                 # the capacity override is documented to disable the serialization buffer check: an undersized
                 # output buffer is then the caller's error, so only sufficient buffers are legitimate inputs
@@ -422,6 +431,11 @@ def make_ops(r: Rng, types: list, n: int, is_c: bool, counters: dict, full_cap_o
 
         if kind == "des":
             ops.append(des())
+            if last_kind[0] == "valid_max" and ro.chance(2, 3) and not full_cap_only:
+                # the longest value the type has, serialised straight away into buffers of EVERY size (0 .. advertised + 1)
+                ops.append([12, ti, sl, 0, ""])
+            elif ro.chance(1, 40) and not full_cap_only:
+                ops.append([12, ti, sl, 0, ""])
         elif kind == "ser":
             ops.append(ser())
         elif kind == "init":
@@ -607,7 +621,7 @@ def run_case(case: dict, ctx: dict) -> dict:
         violations.append({"signature": "%s:%s:%s" % (PROP, cfg["name"], cls), "detail": detail})
         bump("status", "script-failed")
     for o in ops:
-        bump("ops", {1: "INIT", 2: "DES", 3: "SER", 4: "POISON", 5: "CORRUPT", 6: "COPY", 7: "MOVE", 8: "RECONSTRUCT", 9: "SELFASSIGN", 10: "SWAP", 11: "SCRIBBLE"}.get(o[0], "?"))
+        bump("ops", {1: "INIT", 2: "DES", 3: "SER", 4: "POISON", 5: "CORRUPT", 6: "COPY", 7: "MOVE", 8: "RECONSTRUCT", 9: "SELFASSIGN", 10: "SWAP", 11: "SCRIBBLE", 12: "SWEEP"}.get(o[0], "?"))
     nontrivial = []
     if hstats and (hstats.get("decode_into_used_slot", 0) + hstats.get("decode_after_failed_decode", 0) + hstats.get("decode_into_corrupted_slot", 0)) > 0 and hstats.get("ser_small_cap", 0) > 0:
         nontrivial.append(hashlib.sha256(repr((sorted(files.items()), cfg["name"], sorted(counters["ops"].items()), sorted(counters["buffers"].items()))).encode()).hexdigest()[:16])
